@@ -111,6 +111,24 @@ RULES.update({
 })
 
 
+_LD = ("LdSem (coq/Model/LdSem.v) is a model of GNU ld 2.40 validated by sampling against the real linker on every run; link-level "
+       "theorems are theorems about LdSem, the real-ld monitors check the same clauses on real images")
+_SPEC = "extracted specification functions (coq/Extract/ExtractSpec.v -> build/driver_spec) run on the real tool's outputs: "
+EXTRA_TRUST.update({
+    "C01": [_LD], "C02": [_LD], "C03": [_LD], "C04": [_LD], "C09": [_LD], "C10": [_LD], "C17": [_LD], "C18": [_LD],
+    "C05": [_LD, _SPEC + "doc_symbols / doc_symbols_single against the definitions in the real script"],
+    "C13": [_LD, _SPEC + "doc_header_symbols(_main/_single) against the names the real tool records for the header; gcc -fsyntax-only on "
+                         "sampled headers"],
+    "C16": [_SPEC + "valid, Known_C16_null_plain_string, Known_C16_null_forbidden_field against the real accept/reject outcome"],
+    "C19": [_SPEC + "wf_lines with doc_names_valid(_partial) on the real script texts; GNU ld and ld.lld acceptance on linked samples; "
+                    "supervised hostile byte stream"],
+    "C11": ["two-step link with real GNU ld (ld -r per partial script, then the main script): executed on samples, LdSem has no -r mode"],
+    "C15": ["fresh processes (fresh SipHash keys), permuted option order and a dirty-directory history run of the real library; "
+            "tools/hash_iter_scan.py source scan"],
+    "C20": ["the real slinky-cli binary in scratch directories; vlib/run.py os_oracle for writes the OS refuses"],
+})
+
+
 def coverage_key(pid, c, ji, oi):
     """what 'distinct' counts for the evidence: by default the property's observable projection"""
     from . import props
